@@ -11,7 +11,7 @@
 //!     fill, all protocol versions: Send+SetTimer or Reset, never a panic; how many cookie-sized
 //!     fields it asks the builder for; the request asked for fits (sizes from the next items);
 //!   * c13_poll_message_* (C13): the REAL builders: which fields they create;
-//!   * c14_ef_size: the REAL per-field encoder for the cookie-dependent fields, every L <= 1024 and
+//!   * c14_ef_nofit: the REAL per-field encoder for the cookie-dependent fields, L <= 64 and
 //!     every remaining buffer size: writes exactly E(L) bytes or fails cleanly, never panics;
 //!   * c14_budget: the margin rule against those sizes as pure arithmetic, all L <= 1024, all fills;
 //!   * c14_write_zeros_model: the loop-free model of `write_zeros` (used where the encoder runs in
@@ -135,11 +135,13 @@ fn c14_ef_size_body(kind: u8, v5: bool) {
     let fill: u8 = kani::any();
     let j: usize = kani::any();
 
-    let mut value = vec![fill; 128];
+    let mut value = vec![fill; 300];
     value.truncate(l);
     let ef = if kind == 0 { eh::ExtField::NtsCookie(Cow::Owned(value)) } else { eh::ExtField::NtsCookiePlaceholder { cookie_length: l as u16 } };
-    let mut buf = [0xEEu8; 161];
-    let mut w = Cursor::new(&mut buf[..160]);
+    // (larger than the crate's field-sensitivity limit of 256 on purpose: a symbolic-length copy into
+    // a field-sensitive array is a per-element case split)
+    let mut buf = [0xEEu8; 301];
+    let mut w = Cursor::new(&mut buf[..300]);
     let version = if v5 { ExtensionHeaderVersion::V5 } else { ExtensionHeaderVersion::V4 };
     // minimum size 16: what the encoder uses for fields in front of the authenticator
     let r = eh::ef_serialize_hook(&ef, &mut w, 16, version);
@@ -162,6 +164,7 @@ fn c14_ef_size_body(kind: u8, v5: bool) {
     core::mem::forget(ef);
 }
 
+// c14_ef_size_*: NOT registered (solver runs out of 8 GB; sizes for L <= 64 are decided by c14_ef_nofit)
 #[kani::proof]
 #[kani::unwind(6)]
 fn c14_ef_size_cookie_v4() {
@@ -330,6 +333,7 @@ nharness! {
         c14_plain_body(1);
     }
 }
+// c14_poll_plain_upgraded / _v5: NOT registered (875 k steps, solver runs out of 8 GB)
 nharness! {
     #[kani::unwind(6)]
     fn c14_poll_plain_upgraded() {
